@@ -23,6 +23,6 @@ try:
     print("\n".join(l[:400] for l in v[:12]))
     print(("CAUGHT" if r.returncode == 1 and "VIOLATION" in out else "MISSED"), mid, cid, "rc=%d" % r.returncode)
 finally:
-    subprocess.run(["git","-C","/repo","checkout","--","."],check=True)
+    subprocess.run(["git","-C","/repo","checkout","--","."],check=True); subprocess.run(["git","-C","/repo","clean","-fdq"],check=True)
     # evidence/replay written by a mutant run are not evidence of the real tree
     subprocess.run("cd /verif && git checkout -- evidence 2>/dev/null; true", shell=True)
